@@ -14,7 +14,7 @@ EXPLANATION = ("C02: exhaustive check of the aio provider protocol (result of nn
                " Also: the expiry scan accounts for every entry it walks past (E1), and whoever takes the head off a head-gated request queue starts the next transfer (S3).")
 EXPLANATION += ' Round 3: the absolute-expiry flag is updated together with the timeout / deadline it qualifies (T1).'
 EXPLANATION += " Round 5: the byte-stream connections and the platform's queues park nothing after their close has drained them (P1 = C10.R11 for src/platform and src/supplemental)."
-EXPLANATION += " Round 8: a caller's aio is cleared (nni_aio_reset) on every way from a public entry point to the nni_aio_start of a provider (A15); the one-shot absolute expiry is forgotten wherever the framework ends an operation (T3); a cancel function of a head-served queue aborts the lower operation only for the operation being served or when nobody waits (A16); a_result is stored only where an operation ends or begins (T4)."
+EXPLANATION += " Round 8: a caller's aio is cleared (nni_aio_reset) on every way from a public entry point to the nni_aio_start of a provider (A15); the one-shot absolute expiry is forgotten wherever the framework ends an operation (T3); a cancel function of a head-served queue aborts the lower operation only for the operation being served or when nobody waits (A16); a_result is stored only where an operation ends or begins (T4); a_timeout is stored only by the initialiser and the setter (T5, known finding)."
 EXPLANATION += " Round 6: a one-place park field is not overwritten while occupied (A12); an operation unlinked from its wait list is completed, queued again or handed on (A13); the mark a cancel function tests stays on the operation until it completes without a blocking step in between (A14); a busy latch is released by the completion it waits for (S4); 'served in the same critical section' requires the drain under a closed mark (P1)."
 ASSUMPTIONS = ["interleaving-level behaviour of the expire thread and of user code is not decided"]
 
@@ -1981,6 +1981,38 @@ def rule_t4(ctx):
         raise AnalysisBroken("only %d stores into a_result found in core/aio.c" % n)
 
 
+# ---------------------------------------------------------------------------
+# T5: the duration the caller configured is not rewritten by an operation
+
+
+def rule_t5(ctx):
+    r = ctx.rule("C02.T5", "T10", "a timeout never fires before the configured duration, third part: a_timeout holds what the caller "
+                 "configured (nng_aio_set_timeout), including 'use the default of the object the operation is for' "
+                 "(NNG_DURATION_DEFAULT).  Only the initialiser and the setter store into it; a function on the path of an "
+                 "operation that stores a resolved value there turns the caller's 'default' into the first object's value for "
+                 "good, and a later operation -- after the option was raised, or for another socket -- fires at the old duration",
+                 floor=2)
+    r.own_opinion = True
+    prog = ctx.prog
+    n = 0
+    for f in prog.functions:
+        if f.cfg_failed or f.normalized:
+            continue
+        for t in f.assigns():
+            l = f.expand(t.node["lhs"])
+            if not (l.get("k") == "mem" and l["f"] == "a_timeout" and l.get("rec") in ("nng_aio", "nni_aio")):
+                continue
+            n += 1
+            if f.name in ("nni_aio_init", "nni_aio_set_timeout"):
+                r.ob(f, "%s line %s: the initialiser / the setter" % (f.name, t.line))
+            else:
+                ctx.fail(r, f, "configured timeout rewritten on the path of an operation", t.line,
+                         "%s stores %s into a_timeout (line %s): the caller's configured duration (possibly NNG_DURATION_DEFAULT) is "
+                         "replaced for this and every later operation on the aio" % (f.name, show(f.expand(t.node["rhs"])), t.line))
+    if n < 2:
+        raise AnalysisBroken("only %d stores into a_timeout found" % n)
+
+
 def run(ctx):   # noqa: F811
     ctx.guard(rule_a1)
     ctx.guard(rule_a2)
@@ -2007,3 +2039,4 @@ def run(ctx):   # noqa: F811
     ctx.guard(rule_t3)
     ctx.guard(rule_a16)
     ctx.guard(rule_t4)
+    ctx.guard(rule_t5)
